@@ -7,6 +7,17 @@ open Drv Aegean.Model.C17
 
 def floats (ws : List String) : Option (List Float) := ws.mapM parseFloat?
 
+/-- a string sent as hex bytes (ASCII), so that leading/trailing blanks and tabs survive the line protocol -/
+def unhex (s : String) : Option String :=
+  let rec go : List Char → List Char → Option (List Char)
+    | [], acc => some acc.reverse
+    | a :: b :: r, acc =>
+      match hexDigit? a, hexDigit? b with
+      | some x, some y => go r (Char.ofNat (x * 16 + y) :: acc)
+      | _, _ => none
+    | _, _ => none
+  if s == "-" then some "" else (go s.toList []).map String.ofList
+
 def showErr : ParseErr → String
   | .index => "err index"
   | .value => "err value"
@@ -46,6 +57,13 @@ def handle (ws : List String) : String :=
     match dec2dec (α := Float) dec2decPosHand Gen.C17.dec2decNeg s with
     | .error e => showErr e
     | .ok v => if kind == "ra" then s!"ok {showFloat (Gen.C17.ra2decScale v)}" else s!"ok {showFloat v}"
+  | ["parsex", kind, hx] =>    -- the same, the string given as hex bytes ("-" = empty string)
+    match unhex hx with
+    | none => "bad-op"
+    | some s =>
+      match dec2dec (α := Float) dec2decPosHand Gen.C17.dec2decNeg s with
+      | .error e => showErr e
+      | .ok v => if kind == "ra" then s!"ok {showFloat (Gen.C17.ra2decScale v)}" else s!"ok {showFloat v}"
   | ["pdms", x] =>          -- the pinned Float formatter (negation witness model)
     match parseFloat? x with
     | some x => let (neg, d, m, cs) := pinnedDms x; dmsString neg d m cs
